@@ -54,8 +54,8 @@ func c10(w *core.World, r *core.Report) {
 		nProj, nRaw := 0, 0
 		var pos token.Pos = f.Pos()
 		for _, st := range core.Sites(f, false) {
-			// calls that build a command value: closures of the parser (makeCmd)
-			if st.Callee == nil || st.Callee.Parent() != f {
+			// calls that build a command value: a closure of the parser (makeCmd) or a function written for it
+			if !buildsBisyncCommand(st) {
 				continue
 			}
 			for _, a := range st.Args() {
@@ -164,14 +164,13 @@ func ruleForwardConsultsFilters(w *core.World, r *core.Report) {
 		isForward := func(in ssa.Instruction) bool {
 			if ci, ok := in.(ssa.CallInstruction); ok {
 				s := core.ResolveCall(ci)
-				if s.Callee != nil && s.Callee.Parent() == f && len(core.SitesNamed(s.Callee, false, "builtin.len")) >= 0 && strings.Contains(s.Name, "parseAofReplayUnits$") {
-					// makeCmd is the closure that builds a bisyncAofCommand
-					for _, i2 := range core.Instrs(s.Callee) {
-						if a, ok := i2.(*ssa.Alloc); ok && strings.HasSuffix(core.TypeName(a.Type()), "bisyncAofCommand") {
-							return true
-						}
-					}
+				if buildsBisyncCommand(s) {
+					return true
 				}
+			}
+			// or the command value is built in the parser itself
+			if a, ok := in.(*ssa.Alloc); ok && name != "(*syncer.RedisOutput).parseAofCommand" && strings.HasSuffix(core.TypeName(a.Type()), "bisyncAofCommand") {
+				return true
 			}
 			if sel, ok := in.(*ssa.Select); ok && name == "(*syncer.RedisOutput).parseAofCommand" {
 				for _, st := range sel.States {
@@ -335,7 +334,7 @@ func ruleFilterPredicates(w *core.World, r *core.Report) {
 				// an element of dbBlackList equals db
 				hit := false
 				for _, fct := range p.Conds {
-					c, ok := core.AsCmp(fct.Cond, fct.Val)
+					c, ok := core.FactCmp(fct)
 					if !ok || c.Op != token.EQL {
 						continue
 					}
@@ -469,48 +468,44 @@ func ruleFilterPredicates(w *core.World, r *core.Report) {
 
 // ---------------------------------------------------------------- R10.3
 
-// switchCases returns the string constants of the case clauses of the first
-// switch in the function whose tag is strings.ToLower(...).
-func switchCases(w *core.World, pkg, recv, name string) ([]string, bool) {
-	fd, p := w.FuncDecl(pkg, recv, name)
-	if fd == nil {
+// lowerCmdConstants: the string constants the function (and helpers written
+// for it alone) compares the lower-cased command name with, whether by a
+// switch, an if chain or a boolean expression.
+func lowerCmdConstants(f *ssa.Function) ([]string, bool) {
+	if f == nil {
 		return nil, false
 	}
+	isLower := func(v ssa.Value) bool {
+		c, ok := core.Unwrap(v).(*ssa.Call)
+		return ok && core.ResolveCall(c).Name == "strings.ToLower"
+	}
+	set := map[string]bool{}
+	for _, in := range core.Instrs(f) {
+		b, ok := in.(*ssa.BinOp)
+		if !ok || (b.Op != token.EQL && b.Op != token.NEQ) {
+			continue
+		}
+		x, y := core.Unwrap(b.X), core.Unwrap(b.Y)
+		if s, isS := core.ConstString(y); isS && isLower(x) {
+			set[s] = true
+		} else if s, isS := core.ConstString(x); isS && isLower(y) {
+			set[s] = true
+		}
+	}
 	var out []string
-	found := false
-	ast.Inspect(fd.Body, func(n ast.Node) bool {
-		sw, ok := n.(*ast.SwitchStmt)
-		if !ok || found {
-			return true
-		}
-		call, ok := sw.Tag.(*ast.CallExpr)
-		if !ok {
-			return true
-		}
-		if se, ok := call.Fun.(*ast.SelectorExpr); !ok || se.Sel.Name != "ToLower" {
-			return true
-		}
-		found = true
-		for _, cl := range sw.Body.List {
-			cc := cl.(*ast.CaseClause)
-			for _, e := range cc.List {
-				if tv, ok := p.TypesInfo.Types[e]; ok && tv.Value != nil && tv.Value.Kind() == constant.String {
-					out = append(out, constant.StringVal(tv.Value))
-				}
-			}
-		}
-		return false
-	})
+	for k := range set {
+		out = append(out, k)
+	}
 	sort.Strings(out)
-	return out, found
+	return out, len(out) > 0
 }
 
 func ruleProjection(w *core.World, r *core.Report) {
-	a, ok1 := switchCases(w, "pkg/redis/keyspec", "", "CommandAllowsPartialProjection")
-	b, ok2 := switchCases(w, "pkg/filter", "RedisKeyFilter", "FilterCmdKey")
+	a, ok1 := lowerCmdConstants(w.Func("pkg/redis/keyspec.CommandAllowsPartialProjection"))
+	b, ok2 := lowerCmdConstants(w.Func("(*pkg/filter.RedisKeyFilter).FilterCmdKey"))
 	want := []string{"del", "mset", "unlink"}
 	if !ok1 || !ok2 {
-		r.Unresolved("projection/case-sets", "switch on the lower-cased command not found (allows=%v filter=%v)", ok1, ok2)
+		r.Unresolved("projection/case-sets", "no comparison of the lower-cased command with constants found (allows=%v filter=%v)", ok1, ok2)
 	} else {
 		r.Check(strings.Join(a, ",") == strings.Join(want, ",") && strings.Join(b, ",") == strings.Join(want, ","), "projection/case-sets", token.NoPos,
 			"the commands that may be projected (%v) and the commands FilterCmdKey projects (%v) must both be exactly %v", a, b, want)
@@ -1029,4 +1024,23 @@ func ruleTrieGrowOnly(w *core.World, r *core.Report) {
 		}
 	}
 	r.Check(bad == "" && n >= 3, "Trie/grow-only", pos, "%s (node writes seen: %d)", bad, n)
+}
+
+
+// buildsBisyncCommand: the call is to a function of the module (a closure or a
+// named one) that returns a bisyncAofCommand it has built.
+func buildsBisyncCommand(s core.Site) bool {
+	g := s.Callee
+	if g == nil || len(g.Blocks) == 0 || g.Signature.Results().Len() != 1 {
+		return false
+	}
+	if !strings.HasSuffix(core.TypeName(g.Signature.Results().At(0).Type()), "bisyncAofCommand") {
+		return false
+	}
+	for _, i2 := range core.OwnInstrs(g) {
+		if a, ok := i2.(*ssa.Alloc); ok && strings.HasSuffix(core.TypeName(a.Type()), "bisyncAofCommand") {
+			return true
+		}
+	}
+	return false
 }
